@@ -91,3 +91,17 @@ Definition empty_cosmetic : cosmetic := Build_cosmetic [] [] [] [] (Build_hostdb
 (* an engine that only carries enabled tags (the loader before Engine::deserialize) *)
 Definition loader (tags : list str) : engine :=
   Build_engine (Build_blocker [] [] [] [] [] [] [] [] tags [] true) empty_cosmetic [].
+
+(* ------------------------------------------------------------------ one query end to end *)
+(* CosmeticFilterCache::hidden_class_id_selectors (src/cosmetic_filter_cache.rs): for every class,
+   `.class` if it is a simple rule and not excepted, then the complex selectors keyed by the class
+   that are not excepted; then the same for ids with `#`. *)
+Definition DOT : N := 46.
+Definition HASH : N := 35.
+Definition hidden_for (prefix : N) (simple : list str) (complex : list (str * list str))
+           (exceptions : list str) (name : str) : list str :=
+  (if mem_str name simple && negb (mem_str (prefix :: name) exceptions) then [prefix :: name] else []) ++
+  filter (fun sel => negb (mem_str sel exceptions)) (gets name complex).
+Definition hidden_class_id_selectors (c : cosmetic) (classes ids exceptions : list str) : list str :=
+  flat_map (hidden_for DOT (c_simple_class c) (c_complex_class c) exceptions) classes ++
+  flat_map (hidden_for HASH (c_simple_id c) (c_complex_id c) exceptions) ids.
